@@ -369,6 +369,148 @@ Proof.
 Qed.
 
 (* ---------------------------------------------------------------------------------------------
+   LINELIMIT COUNTS CHARACTERS.  ren_position (ren.c) hands a line to dir_reorder only if it is "not longer than
+   linelimit" -- RenDefs.use_reorder: uc_slen s <= xlim, i.e. the number of CHARACTERS (the terminator counts),
+   never the number of bytes; the byte count enters only as `multibyte s` = uc_slen s < length s (order 1 reorders
+   only lines with a multi-byte sequence).  RenOrdDefs.ren_order dr o s = the order array ren_position lays the line
+   out with (dir_reorder's result on the reordering path, the identity on the fast path); the probe records that
+   very array (`rord=`: what ren.c's own call of dir_reorder left in it) and the driver prints the extracted
+   ren_order.  Proofs: coq/RenOrdProps.v; on the translated C text: coq/TrRenGate.v. *)
+From NV Require Import RenProps RenOrdDefs RenOrdProps.
+
+(* the gate spelled out *)
+Theorem C18_linelimit_gate : forall o s,
+  use_reorder o s = (Z.of_nat (uc_slen s) <=? xlim o)%Z && ((xorder o =? 2)%Z || ((xorder o =? 1)%Z && multibyte s)).
+Proof. exact use_reorder_chars. Qed.
+Print Assumptions C18_linelimit_gate.
+
+(* a line within the limit in CHARACTERS is reordered (order 2; order 1 if it has a multi-byte sequence) however
+   many bytes it has -- in particular with more bytes than linelimit (second statement); a line over the limit in
+   characters is not; two lines with the same number of characters are gated alike whatever their byte counts *)
+Theorem C18_linelimit_characters : forall o s,
+  ((Z.of_nat (uc_slen s) <= xlim o)%Z -> xorder o = 2%Z \/ (xorder o = 1%Z /\ multibyte s = true) -> use_reorder o s = true) /\
+  ((Z.of_nat (uc_slen s) <= xlim o < Z.of_nat (length s))%Z -> xorder o = 1%Z \/ xorder o = 2%Z -> use_reorder o s = true) /\
+  ((xlim o < Z.of_nat (uc_slen s))%Z -> use_reorder o s = false) /\
+  (forall s', uc_slen s = uc_slen s' -> multibyte s = multibyte s' -> use_reorder o s = use_reorder o s').
+Proof.
+  exact (fun o s => conj (limit_counts_characters o s) (conj (limit_not_bytes o s) (conj (limit_exceeded o s)
+           (fun s' => limit_bytes_irrelevant o s s')))).
+Qed.
+Print Assumptions C18_linelimit_characters.
+
+(* a line of single-byte characters has as many characters as bytes (so order 1 leaves it alone) *)
+Theorem C18_single_byte_line : forall s, Forall (fun b => bit b 128 = false) s -> uc_slen s = length s /\ multibyte s = false.
+Proof. exact (fun s H => conj (ascii_slen s H) (ascii_not_multibyte s H)). Qed.
+Print Assumptions C18_single_byte_line.
+
+(* the order array of ren_position: within the limit in characters it is dir_reorder's result on the identity -- for
+   the model of dir.c: the permutation C18_permutation / C18_runs_reversed / C18_identity speak about --, and the
+   columns are those of the reordering path, laid out along its inverse (C17_tiling); otherwise (order 0, over the
+   limit, a single-byte line with order 1) it is the identity and the columns are those of the fast path *)
+Theorem C18_linelimit_order : forall dr o s,
+  ((Z.of_nat (uc_slen s) <= xlim o)%Z -> xorder o = 2%Z \/ (xorder o = 1%Z /\ multibyte s = true) ->
+     ren_order dr o s = dr s (seq 0 (uc_slen s))) /\
+  (use_reorder o s = true ->
+     ren_order dr o s = the_ord dr o s /\ ren_position dr o s = ren_position_reorder dr o s /\
+     vis_order dr o s = inverse (ren_order dr o s) (uc_slen s)) /\
+  (use_reorder o s = false ->
+     ren_order dr o s = seq 0 (uc_slen s) /\ ren_position dr o s = ren_fast (uc_slen s) s 0%Z /\ vis_order dr o s = seq 0 (uc_slen s)) /\
+  (xorder o = 0%Z \/ (xlim o < Z.of_nat (uc_slen s))%Z \/ (xorder o = 1%Z /\ multibyte s = false) \/ (xorder o <> 1%Z /\ xorder o <> 2%Z) ->
+     ren_order dr o s = seq 0 (uc_slen s)).
+Proof.
+  exact (fun dr o s => conj (ren_order_within_limit dr o s) (conj (ren_order_reordered dr o s)
+           (conj (ren_order_fast dr o s) (ren_order_identity dr o s)))).
+Qed.
+Print Assumptions C18_linelimit_order.
+
+Theorem C18_linelimit_dir : forall xtd ctxfound raw o s ord, (Z.of_nat (uc_slen s) <= xlim o)%Z ->
+  xorder o = 2%Z \/ (xorder o = 1%Z /\ multibyte s = true) ->
+  dir_reorder s xtd ctxfound raw (seq 0 (uc_slen s)) = Some ord ->
+  ren_order (dr_of xtd ctxfound raw) o s = ord.
+Proof. exact ren_order_dir. Qed.
+Print Assumptions C18_linelimit_dir.
+
+(* four two-byte letters (8 bytes), dr = reversal of the whole array: reordered with linelimit 4 (orders 1 and 2),
+   not with linelimit 3 nor with order 0; the columns follow; a single-byte line of 4 characters is reordered with
+   order 2 only; eight characters are over linelimit 4 *)
+Example C18_linelimit_nonvacuous :
+  uc_slen ex_line = 4%nat /\ length ex_line = 8%nat /\ multibyte ex_line = true /\
+  use_reorder {| xorder := 1; xlim := 4 |} ex_line = true /\
+  ren_order ex_dr {| xorder := 1; xlim := 4 |} ex_line = [3; 2; 1; 0]%nat /\
+  ren_order ex_dr {| xorder := 2; xlim := 4 |} ex_line = [3; 2; 1; 0]%nat /\
+  ren_order ex_dr {| xorder := 1; xlim := 3 |} ex_line = [0; 1; 2; 3]%nat /\
+  ren_order ex_dr {| xorder := 0; xlim := 4 |} ex_line = [0; 1; 2; 3]%nat /\
+  ren_position ex_dr {| xorder := 1; xlim := 4 |} ex_line = [3; 2; 1; 0; 4]%Z /\
+  ren_position ex_dr {| xorder := 1; xlim := 3 |} ex_line = [0; 1; 2; 3; 4]%Z /\
+  ren_order ex_dr {| xorder := 1; xlim := 4 |} [97; 98; 99; 100]%N = [0; 1; 2; 3]%nat /\
+  ren_order ex_dr {| xorder := 2; xlim := 4 |} [97; 98; 99; 100]%N = [3; 2; 1; 0]%nat /\
+  ren_order ex_dr {| xorder := 2; xlim := 4 |} (ex_line ++ ex_line) = seq 0 8.
+Proof. exact limit_nonvacuous. Qed.
+
+(* THE GATE ON THE C TEXT.  ren_position is translated on every run (cf_ren_position); ren_position_reorder is an
+   extern of the translated program (it calls the regex engine).  The body of ren_position is executed with an
+   ARBITRARY call function of which only two answers are given: uc_slen(s) = the model's uc_slen (TrUc.tr_uc_slen
+   for the translated uc_slen) and ren_position_reorder(s) = r.  With use_reorder o s = true -- in particular
+   (second theorem) with uc_slen s <= xlim < strlen(s) and order 1 or 2 -- the translated ren_position returns exactly
+   r (the memory r leaves; an error of r as that error): the line goes to ren_position_reorder whatever its number
+   of bytes.  The other half -- use_reorder o s = false: the columns of the fast path, no call of
+   ren_position_reorder -- is C17_tr_ren_position_fast.  Third: in the translated program itself, where the extern
+   has no body, the call is the error EShape. *)
+From NV Require Import TrUc TrRenGate.
+
+Theorem C18_tr_linelimit_gate : forall (call : nat -> list val -> mem -> res (val * mem)) o m b s fuel r,
+  str_at m b s -> nonul s -> (Z.of_nat (length s) < 2147483647)%Z ->
+  cell_at m G_xlim (xlim o) -> cell_at m G_xorder (xorder o) -> int_ok (xlim o) -> int_ok (xorder o) ->
+  call F_uc_slen [VPtr b 0%Z] m = Ok (VInt (Z.of_nat (uc_slen s)), m) ->
+  call X_ren_position_reorder [VPtr b 0%Z] m = r ->
+  use_reorder o s = true ->
+  exec call fuel (fn_body cf_ren_position) (mkst [VPtr b 0%Z; VUndef; VUndef; VUndef; VUndef] m)
+  = gate_result r [VPtr b 0%Z; VInt 0%Z; VUndef; VUndef; VInt (Z.of_nat (uc_slen s))].
+Proof. exact tr_ren_position_gate. Qed.
+Print Assumptions C18_tr_linelimit_gate.
+
+Theorem C18_tr_linelimit_chars : forall (call : nat -> list val -> mem -> res (val * mem)) o m b s fuel r,
+  str_at m b s -> nonul s -> (Z.of_nat (length s) < 2147483647)%Z ->
+  cell_at m G_xlim (xlim o) -> cell_at m G_xorder (xorder o) -> int_ok (xlim o) -> int_ok (xorder o) ->
+  call F_uc_slen [VPtr b 0%Z] m = Ok (VInt (Z.of_nat (uc_slen s)), m) ->
+  call X_ren_position_reorder [VPtr b 0%Z] m = r ->
+  (Z.of_nat (uc_slen s) <= xlim o < Z.of_nat (length s))%Z -> xorder o = 1%Z \/ xorder o = 2%Z ->
+  exec call fuel (fn_body cf_ren_position) (mkst [VPtr b 0%Z; VUndef; VUndef; VUndef; VUndef] m)
+  = gate_result r [VPtr b 0%Z; VInt 0%Z; VUndef; VUndef; VInt (Z.of_nat (uc_slen s))].
+Proof. exact tr_ren_position_gate_chars. Qed.
+Print Assumptions C18_tr_linelimit_chars.
+
+Theorem C18_tr_linelimit_cprog : forall o m b s d fuel,
+  str_at m b s -> nonul s -> (Z.of_nat (length s) < 2147483647)%Z -> (length s < fuel)%nat ->
+  cell_at m G_xlim (xlim o) -> cell_at m G_xorder (xorder o) -> int_ok (xlim o) -> int_ok (xorder o) ->
+  use_reorder o s = true ->
+  callf cprog fuel (S (S (S (S (S d))))) F_ren_position [VPtr b 0%Z] m = Err EShape.
+Proof. exact tr_ren_position_gate_cprog. Qed.
+Print Assumptions C18_tr_linelimit_cprog.
+
+(* the translated ren_position RUNS on the four two-byte letters of C18_linelimit_nonvacuous, the options in the
+   program's own global cells: with linelimit 4 (4 characters, 8 bytes) it reaches the call of ren_position_reorder,
+   with linelimit 3 it returns the columns 0 1 2 3 4 of the fast path in a fresh block; the hypotheses of the gate
+   theorem hold for that memory *)
+Example C18_tr_linelimit_nonvacuous :
+  let b := length cglobals in
+  let mem_of lim := CLiteProps.upd (CLiteProps.upd cglobals G_xlim [VInt lim]) G_xorder [VInt 1%Z] ++ [cstr_block (map Z.of_N ex_line)] in
+  str_at (mem_of 4%Z) b ex_line /\ nonul ex_line /\ cell_at (mem_of 4%Z) G_xlim 4%Z /\ cell_at (mem_of 4%Z) G_xorder 1%Z /\
+  use_reorder {| xorder := 1; xlim := 4 |} ex_line = true /\ use_reorder {| xorder := 1; xlim := 3 |} ex_line = false /\
+  callf cprog 100 9 F_ren_position [VPtr b 0%Z] (mem_of 4%Z) = Err EShape /\
+  match callf cprog 100 9 F_ren_position [VPtr b 0%Z] (mem_of 3%Z) with
+  | Ok (VPtr g 0%Z, M) => g = S b /\ nth_error M g = Some (map VInt [0; 1; 2; 3; 4]%Z)
+  | _ => False
+  end.
+Proof.
+  cbv zeta. split; [reflexivity|]. split; [repeat constructor; discriminate|].
+  split; [vm_compute; reflexivity|]. split; [vm_compute; reflexivity|].
+  split; [vm_compute; reflexivity|]. split; [vm_compute; reflexivity|].
+  split; [vm_compute; reflexivity|].
+  vm_compute. split; reflexivity.
+Qed.
+
+(* ---------------------------------------------------------------------------------------------
    THE REORDERING ITSELF IS THE C TEXT, RELATIVE TO A MATCHER ORACLE.  dir_context, dir_match, dir_fix, dir_reorder of dir.c and
    conf_dirmark, conf_dircontext of conf.c are translated by tools/c2clite.py on every run (GenCFuncs.v; whitelist
    tools/c2clite.d/99zzz_dir.list).  rset_find -- the pattern matcher over the configured marks -- is NOT translated: a call to it
